@@ -46,6 +46,10 @@ def fault_ops(cls, seed):
                        R(V, k="Ground", rid=9, ray=[["nan", 5, 0], ["nan", -5, 0]])], "benign"),
         "chatty": ([x for i in range(14) for x in (R(V, k="Ping", rid=300 + i), dict(op="barrier", c=3, ms=2000), dict(op="barrier_if", c=2, ms=2000),
                                                      dict(op="sleep", ms=45))], "benign"),
+        # the victim stops reading, the witness of its session floods it with relays, then the victim's connection is reset:
+        # everything C06 promises must still happen (ConnSend.tla; the regression scenarios l2_D19_* add the schedule)
+        "stalled_member_close": ([dict(op="stall", c=V), dict(op="aburst_if", c=2, n=1500, req=dict(k="Custom", len=10000, dig=0, to=[], ts=9)),
+                                  dict(op="sleep", ms=700), dict(op="close", c=V), dict(op="waitburst_if", c=2, ms=60000)], "fatal"),
         "bad_join_ids": ([J(V, -1, 31), J(V, 99, 32), R(V, k="EntityDelete", rid=33, eid=999, ts=3),
                           R(V, k="CompAdd", rid=34, tid=0, eid=0, data=1, ts=3), R(V, k="SignedLatency", rid=35, n=0, wallet="")], "benign_if_joined"),
     }
@@ -53,7 +57,7 @@ def fault_ops(cls, seed):
 
 
 CLASSES = ["garbage", "truncated", "notimestamp", "empty", "text", "close", "closeframe", "receipt_empty", "burst_receipt", "burst_fail",
-           "idle", "unknown_type", "pose_nil", "action_nil", "asset_empty", "custom_huge", "dagaz_nil", "dagaz_nan", "chatty", "bad_join_ids"]
+           "idle", "unknown_type", "pose_nil", "action_nil", "asset_empty", "custom_huge", "dagaz_nil", "dagaz_nan", "chatty", "bad_join_ids", "stalled_member_close"]
 LIFE = ["fresh", "alone", "full", "switched"]
 
 
@@ -85,23 +89,24 @@ def scenario(cls, life, seed):
     if cls in ("idle", "chatty"):
         # the witnesses must not idle out themselves: they keep pinging through barriers below
         pass
-    fops = [o for o in fops if not (o["op"] == "barrier_if" and life not in ("full", "switched"))]
+    fops = [o for o in fops if not (o["op"].endswith("_if") and life not in ("full", "switched"))]
     for o in fops:
-        if o["op"] == "barrier_if":
-            o["op"] = "barrier"
+        if o["op"].endswith("_if"):
+            o["op"] = o["op"][:-3]
     ops += fops
     fatal = kind == "fatal" or (kind == "fatal_if_fresh" and life == "fresh") or (kind == "benign_if_joined" and life == "fresh")
     if cls == "custom_huge" and life == "fresh":
         fatal = True
     if cls in ("pose_nil",) and life == "fresh":
         fatal = False   # a parked update of a connection that never joined is never consumed
+    slow = 10 if cls.startswith("stalled_member") else 1
     if fatal:
-        ops += [dict(op="waitreturn", c=1, ms=4000)]
+        ops += [dict(op="waitreturn", c=1, ms=4000 * slow)]
     else:
         ops += [dict(op="barrier", c=1, ms=3000)]
-    ops += [dict(op="barrier", c=2 if life in ("full", "switched") else 3, ms=3000), dict(op="barrier", c=3, ms=3000)]
+    ops += [dict(op="barrier", c=2 if life in ("full", "switched") else 3, ms=3000 * slow), dict(op="barrier", c=3, ms=3000 * slow)]
     if life in ("full", "switched"):
-        ops += [dict(op="sleep", ms=(150 if life == "switched" else 30)), dict(op="barrier", c=2, ms=3000)]
+        ops += [dict(op="sleep", ms=(150 if life == "switched" else 30)), dict(op="barrier", c=2, ms=3000 * slow)]
     return dict(sid="%s/%s/%d" % (cls, life, seed), cls=cls, life=life, fatal=fatal,
                 config=dict(mods=MODS, idle_ms=idle, frame_ms=(60 if life == "switched" else 2)), ops=ops)
 
@@ -412,6 +417,7 @@ def run(work, tier, replay=None):
     write_evidence(work, "model_checking", coverage,
                    ["'all byte sequences' is an input space: the specification contributes the frame classes (decodable with/without core handler, junk) and the oracle; bytes inside a class are seeded samples",
                     "real time: idle timeout 250 ms, frames 2 ms; a wedge is reported only when a handler has not returned 3 s after every client is gone and the goroutine profile still shows it",
+                    "send path and frame path: ConnSend.tla / FrameFlow.tla are checked exhaustively for small queue capacities (3-6 instead of 512, 2-4 instead of 256); their binding to the code is the replay of their counterexamples as wire-level scenarios (stalled member reset / stalled for good / full scheduler queue), with the victim's main loop held for 0-400 ms at the entry of HandleDisconnect to place the schedule; the repaired designs are accepted, the three earlier designs and the frame design of the code (open finding D11) must stay refuted",
                     "the server runs in the harness process; inputs known to exhaust memory (finite but huge ground-plane coordinates) are excluded and listed as a finding"],
                    violations=len(violations))
     for kf in known:
